@@ -331,7 +331,7 @@ func init() {
 	reg("reflect.New", func(i *interpreter, fr *frame, args []value) value {
 		t := typeArg(args[0])
 		cell := zero(t)
-		return rval{t: types.NewPointer(t), v: &cell}
+		return rval{t: ptrTo(t), v: &cell}
 	})
 	reg("reflect.Zero", func(i *interpreter, fr *frame, args []value) value {
 		t := typeArg(args[0])
@@ -588,7 +588,7 @@ func init() {
 		if r.addr == nil {
 			reflectPanic("reflect.Value.Addr of unaddressable value")
 		}
-		return rval{t: types.NewPointer(r.t), v: r.addr, ro: r.ro}
+		return rval{t: ptrTo(r.t), v: r.addr, ro: r.ro}
 	})
 	reg("(reflect.Value).Len", func(i *interpreter, fr *frame, args []value) value {
 		r := args[0].(rval)
